@@ -342,7 +342,7 @@ fn fqz_zero_cases(max_len: usize) -> Vec<FqzCase> {
     out
 }
 
-fn fqz_harness(ctx: &mut Ctx, name: &str, cases: &[FqzCase]) {
+fn fqz_harness(ctx: &mut Ctx, name: &str, what: &str, cases: &[FqzCase]) {
     if skip(name) {
         return;
     }
@@ -352,7 +352,7 @@ fn fqz_harness(ctx: &mut Ctx, name: &str, cases: &[FqzCase]) {
         cases.len() as u64,
         |i| format!("fqzcomp {}", cases[i as usize].expr),
         take_states,
-        "quality strings x compositions of the length into <= 4 records",
+        what,
         |i| {
             let c = &cases[i as usize];
             match codecs::fqzcomp(&c.lens, &c.quals) {
@@ -621,12 +621,12 @@ fn main() {
             vec![65535], vec![65536], vec![65537], vec![65536, 1],
         ];
         let fq = fqz_cases(ctx.by_tier(10, 20), ctx.by_tier(4, 8), &big_lens);
-        fqz_harness(ctx, "fqzcomp", &fq);
+        fqz_harness(ctx, "fqzcomp", "quality families x every composition of the length into <= 4 records, plus long single/multi records", &fq);
         // record lists with zero-length records (a slice may hold reads without bases/qualities; the
         // decoder returns the flat quality string, so such records carry no data): every sequence of
         // <= 4 non-negative lengths with at least one zero
         let fqz0 = fqz_zero_cases(ctx.by_tier(4, 7));
-        fqz_harness(ctx, "fqzcomp_zero", &fqz0);
+        fqz_harness(ctx, "fqzcomp_zero", "quality families x every list of <= 4 record lengths containing a zero-length record", &fqz0);
 
         // (5) name tokenizer
         // lists of <= 3 names never give the tokenizer a token stream of >= 4 bytes to entropy-code
